@@ -168,7 +168,11 @@ def interrupt_case(item):
                                             'rm_targets') if k in sc}}
     try:
         s0 = cl.prepare(sc, root)
-        ref = cl.census(dict(sc), root, s0)      # uninterrupted reference: which tasks are stale at S0
+        # uninterrupted reference: which tasks are stale at S0 and what record a successful execution of each saves.  It
+        # runs with --continue: without it a failing task would end the reference run early and leave no record to
+        # compare for the tasks that the interrupted run (where that task is interrupted before it can fail, or where a
+        # parallel runner had others in flight) does complete.
+        ref = cl.census(dict(sc, **{'continue': True}), root, s0)
         stale = [e['t'] for e in ref['events'] if e.get('ev') == 'start']
         d = os.path.join(root, 'intr')
         shutil.copytree(s0, d)
